@@ -1,5 +1,6 @@
 SPECIFICATION Spec
 CONSTANTS
+  Prefixes = {"none"}
   Alphabet = {"lt", "gt", "slash", "bang", "qmark", "dash", "eq", "dq", "sq", "lb", "rb", "sp", "nl", "x", "nul"}
   MaxLen = 4
   Emit = TRUE
